@@ -245,6 +245,14 @@ func (m *menv) cheque(payee util.Uint160, amount int64, authorised bool) {
 			last = m.w.Invoke([]world.SignerSpec{world.G(m.users[0])}, m.nfs, "cheque", id, payee, amount, []byte{9})
 			b.Tx(1)
 		} else {
+			// an unrelated decision may be pending while the cheque is voted (the ballot list is shared)
+			if len(m.alphabet) >= 2 && b.Rng.IntN(2) == 0 {
+				m.seq++
+				ur := m.w.Invoke([]world.SignerSpec{world.G(world.Single(m.alphabet[b.Rng.IntN(len(m.alphabet))]))}, m.nfs, "setConfig", []byte(fmt.Sprintf("unrelated-%d", m.seq)), []byte("Unrelated"), []byte{1})
+				b.Tx(1)
+				m.account(ur, "unrelated pending vote", nil)
+				b.Hit("cheque-voted-while-another-ballot-is-pending")
+			}
 			for i := 0; i < th; i++ {
 				last = m.w.Invoke([]world.SignerSpec{world.G(world.Single(m.alphabet[i]))}, m.nfs, "cheque", id, payee, amount, []byte{9})
 				b.Tx(1)
@@ -252,6 +260,22 @@ func (m *menv) cheque(payee util.Uint160, amount int64, authorised bool) {
 					m.account(last, "cheque vote below the threshold", nil)
 				}
 			}
+			defer func() {
+				// the remaining Alphabet nodes vote late for the decision that was already taken: nothing may be paid again
+				if !last.Halted() {
+					return
+				}
+				pb := m.w.GASOf(payee)
+				for i := th; i < len(m.alphabet); i++ {
+					lt := m.w.Invoke([]world.SignerSpec{world.G(world.Single(m.alphabet[i]))}, m.nfs, "cheque", id, payee, amount, []byte{9})
+					b.Tx(1)
+					if len(m.events(lt, "Cheque")) > 0 || m.w.GASOf(payee).Cmp(pb) != 0 {
+						b.Violation(fmt.Sprintf("a late vote for the already approved cheque of %d paid it again", amount), m.detail(lt))
+					}
+					m.account(lt, "late cheque vote", nil)
+					b.Hit("late-cheque-vote")
+				}
+			}()
 		}
 	}
 	covered := bal.Cmp(big.NewInt(amount)) >= 0 && amount >= 0
